@@ -1,44 +1,24 @@
+/* lists_post.h -- nni_list_* dispatchers (see lists_pre.h); included after
+ * env_proto.h (VP_PROTO_STUBS), whose two list functions were renamed to
+ * vp_aioq_first / vp_aioq_empty by post.h. */
 #ifndef VP_LISTS_POST_H
 #define VP_LISTS_POST_H
 #define VP_IS_AIOQ(l) ((l) == g_qa_addr || (l) == g_qb_addr)
-#ifndef VP_LIST_OFF_A
-#define VP_LIST_OFF_A 0
-#endif
-#ifndef VP_LIST_OFF_B
-#define VP_LIST_OFF_B 0
-#endif
-/* VP_LIST_NODES: X(ptr) for every ghost pointer naming a list member */
-static void *
-vp_canon(void *r)
-{
-	if (r == NULL) {
-		return (NULL);
-	}
-#define X(p) if (r == (void *) (p)) { return ((void *) (p)); }
-	VP_LIST_NODES
-#undef X
-	__CPROVER_assert(0, "list member is one of the nodes named by the contract (bounded list shape)");
-	__CPROVER_assume(0);
-	return (NULL);
-}
-#define VP_WITH_OFF(l, stmt)                                               \
-	do {                                                                   \
-		if ((l)->ll_offset == VP_LIST_OFF_A) { stmt; }                     \
-		else if ((l)->ll_offset == VP_LIST_OFF_B) { stmt; }                \
-		else { stmt; }                                                     \
-	} while (0)
 void  nni_list_init_offset(nni_list *l, size_t off) { if (!VP_IS_AIOQ(l)) real_list_init_offset(l, off); }
-void *nni_list_first(const nni_list *l) { void *r; if (VP_IS_AIOQ(l)) return (vp_aioq_first(l)); VP_WITH_OFF(l, r = real_list_first(l)); return (vp_canon(r)); }
+void *nni_list_first(const nni_list *l) { return (VP_IS_AIOQ(l) ? vp_aioq_first(l) : real_list_first(l)); }
 int   nni_list_empty(nni_list *l) { return (VP_IS_AIOQ(l) ? vp_aioq_empty(l) : real_list_empty(l)); }
-void  nni_list_append(nni_list *l, void *item) { if (VP_IS_AIOQ(l)) nni_aio_list_append(l, (nni_aio *) item); else VP_WITH_OFF(l, real_list_append(l, item)); }
-void  nni_list_remove(nni_list *l, void *item) { if (VP_IS_AIOQ(l)) nni_aio_list_remove((nni_aio *) item); else VP_WITH_OFF(l, real_list_remove(l, item)); }
-int   nni_list_active(nni_list *l, void *item) { int r; if (VP_IS_AIOQ(l)) return (nni_aio_list_active((nni_aio *) item)); VP_WITH_OFF(l, r = real_list_active(l, item)); return (r); }
+void  nni_list_append(nni_list *l, void *item) { if (VP_IS_AIOQ(l)) nni_aio_list_append(l, (nni_aio *) item); else real_list_append(l, item); }
+void  nni_list_remove(nni_list *l, void *item) { if (VP_IS_AIOQ(l)) nni_aio_list_remove((nni_aio *) item); else real_list_remove(l, item); }
+int   nni_list_active(nni_list *l, void *item) { return (VP_IS_AIOQ(l) ? nni_aio_list_active((nni_aio *) item) : real_list_active(l, item)); }
 void *nni_list_next(const nni_list *l, void *item)
 {
-	void *r;
 	__CPROVER_assert(!VP_IS_AIOQ(l), "aio wait lists are never walked with nni_list_next (ghost queue model limit)");
-	VP_WITH_OFF(l, r = real_list_next(l, item));
-	return (vp_canon(r));
+	return (real_list_next(l, item));
+}
+void *nni_list_last(const nni_list *l)
+{
+	__CPROVER_assert(!VP_IS_AIOQ(l), "aio wait lists: nni_list_last not modelled");
+	return (real_list_last(l));
 }
 int  nni_list_node_active(nni_list_node *n) { return (real_list_node_active(n)); }
 void nni_list_node_remove(nni_list_node *n) { real_list_node_remove(n); }
